@@ -12,6 +12,7 @@ import (
 
 func init() {
 	vHarnesses["H_C05_text"] = H_C05_text
+	vHarnesses["H_C05_exhaust"] = H_C05_exhaust
 	vHarnesses["H_C05_compose"] = H_C05_compose
 	vHarnesses["H_C05_literals"] = H_C05_literals
 	vHarnesses["H_C05_builtins"] = H_C05_builtins
@@ -134,6 +135,37 @@ func H_C05_literals(inst int) {
 		return err
 	})
 	reach("c05/literal", true)
+}
+
+// c05Exhaust: goals that are driven to exhaustion (G, fail): enumerations at the extremes of the integer range and over
+// every enumerating built-in must END. A path over the step budget is replayed natively; not finishing is the violation.
+var c05Exhaust = []string{
+	`between(9223372036854775806, 9223372036854775807, _)`, `between(9223372036854775807, 9223372036854775807, _)`,
+	`between(-9223372036854775808, -9223372036854775807, _)`, `between(9223372036854775805, 9223372036854775807, X), X > 0`,
+	`between(1, 3, _)`, `between(3, 1, _)`, `succ(_, 9223372036854775807)`, `succ(9223372036854775806, _)`, `length(_, 3)`, `length([a|_], 3)`,
+	`nth0(_, [a, b], _)`, `nth1(_, [a, b], _)`, `sub_atom(abc, _, _, _, _)`, `atom_concat(_, _, abc)`, `append(_, _, [a, b])`, `select(_, [a, b], _)`,
+	`member(_, [a, b])`, `atom_length(abc, _)`, `atom_chars(_, [a, b])`, `char_code(_, 1114111)`, `current_op(_, _, _)`, `current_prolog_flag(_, _)`,
+	`clause(append(_, _, _), _)`, `stream_property(_, _)`, `current_char_conversion(_, _)`, `findall(X, between(9223372036854775806, 9223372036854775807, X), _)`,
+	`bagof(X, between(9223372036854775806, 9223372036854775807, X), _)`, `\+ between(9223372036854775807, 9223372036854775807, 0)`,
+	`forall_missing ; between(9223372036854775807, 9223372036854775807, X), X =:= 0`, `number_codes(_, "12")`, `sort([b, a], _)`, `keysort([b-1, a-2], _)`,
+	`call_nth(between(9223372036854775806, 9223372036854775807, _), _)`, `X is 9223372036854775807, Y is X - 1, between(Y, X, _)`,
+}
+
+// H_C05_exhaust: goal inst followed by fail, through Query: Next must return false (or an error term), in bounded steps.
+func H_C05_exhaust(inst int) {
+	g := c05Exhaust[inst]
+	note("goal", g)
+	i := newFull()
+	sols, err := i.Query("catch((" + g + ", fail), error(_, _), true).")
+	verify(err == nil, "harness: goal does not parse: "+g)
+	n := 0
+	for sols.Next() {
+		n++
+		verify(n <= 1, "a goal followed by fail produced answers")
+	}
+	verify(!isPanicResidue(sols.Err()), "residue of a recovered Go panic")
+	sols.Close()
+	reach("c05/exhaust", true)
 }
 
 // H_C05_compose: the term built by producer inst is handed to every consumer (engine.VH_C05_compose).
